@@ -71,6 +71,7 @@ type tmParams struct {
 	restart  bool // after the final Idle observation schedule one more future and require it to start
 	sample   bool // log the largest pool size seen (pool-limit clause of C13)
 	jitterNs int64
+	gap      time.Duration // order clause of the contract (single worker, cancels before anything is due); 0 = off
 }
 
 type tmEv struct {
@@ -523,7 +524,7 @@ func tmWrite(tw *TraceWriter, p tmParams, evs []tmEv) int {
 	}
 	us := func(d time.Duration) int64 { return int64(d / time.Microsecond) }
 	tw.Emit(map[string]any{"e": "Begin", "late": b2i(p.late), "L": us(p.L), "Q": us(p.Q), "idle": us(p.idle),
-		"slack": us(p.slack), "maxw": p.maxw, "unit": us(p.unit)})
+		"slack": us(p.slack), "maxw": p.maxw, "unit": us(p.unit), "gap": us(p.gap)})
 	for _, ev := range evs {
 		m := map[string]any{"e": ev.kind}
 		switch ev.kind {
@@ -699,6 +700,7 @@ func driveTimer(opt *Options) error {
 			// lateness bound of 400 ms here (the stall detector discards executions with a 250 ms overshoot)
 			po := p
 			po.L, po.idleChk, po.sample, po.restart = 400*time.Millisecond, false, false, false
+			po.maxw, po.gap = 1, 50*time.Millisecond // one worker: futures are taken in queue order (InOrder of TimerAbs.tla)
 			for rep := 0; rep < geti("order", 0); rep++ {
 				nf := 48 + rnd.Intn(16)
 				per := int(100 * time.Millisecond / p.unit)
